@@ -12,6 +12,7 @@ import (
 	"net/http"
 	"net/http/httptest"
 	"path/filepath"
+	"runtime"
 	"strings"
 	"sync"
 	"sync/atomic"
@@ -599,6 +600,102 @@ func TestVerif_C13(t *testing.T) {
 		rep.Count("sqlite_sessions_after_unanswerable_query", 1)
 		rep.Nontrivial("bigquery/" + ending)
 	})
+
+	// several sessions at once on one router - some hold a subscription, one or two publish
+	// without pause, two open and close their only subscription in a loop - and then all of
+	// them are cancelled: every one must return, and the registry must be empty afterwards
+	nCrowd := vk.N(25, 300)
+	for i := 0; i < nCrowd && rep.Violations() < 3; i++ {
+		r := vk.RNG("C13/crowd", i)
+		rt := mocrelay.NewRouterHandler(1 + r.IntN(8))
+		var h mocrelay.Handler = rt
+		desc := "router"
+		if r.IntN(3) == 0 {
+			h, desc = mocrelay.NewMergeHandler(mocrelay.NewCacheHandler(10), rt), "merge(cache(10),router)"
+		}
+		var stop atomic.Bool
+		var sessions []*vk.Session
+		var wg sync.WaitGroup
+		start := func(script func(s *vk.Session, rr *rand.Rand), k int) {
+			s := vk.StartSession(ctx, h, 0)
+			sessions = append(sessions, s)
+			wg.Add(2)
+			go func() { // the peer keeps reading until its session is over
+				defer wg.Done()
+				for {
+					select {
+					case <-s.Send:
+					case <-s.Done:
+						return
+					}
+				}
+			}()
+			go func() {
+				defer wg.Done()
+				script(s, vk.RNG("C13/crowd/s", i*16+k))
+			}()
+		}
+		put := func(s *vk.Session, m mocrelay.ClientMsg) bool { return s.PutWithin(m, vk.WaitBound) }
+		k := 0
+		for n := 2 + r.IntN(6); n > 0; n-- { // holders
+			start(func(s *vk.Session, rr *rand.Rand) {
+				put(s, &mocrelay.ClientReqMsg{SubscriptionID: "hold", ReqFilters: []*mocrelay.ReqFilter{{}}})
+			}, k)
+			k++
+		}
+		for n := 1 + r.IntN(2); n > 0; n-- { // publishers
+			start(func(s *vk.Session, rr *rand.Rand) {
+				for j := 0; !stop.Load(); j++ {
+					e := vk.Seal(&mocrelay.Event{Kind: 1, Pubkey: vk.FakePub(rr.IntN(3)), CreatedAt: int64(1000 + j), Content: fmt.Sprintf("c13 crowd %d %d", i, rr.Uint32()), Tags: []mocrelay.Tag{}})
+					if !put(s, &mocrelay.ClientEventMsg{Event: e}) {
+						return
+					}
+				}
+			}, k)
+			k++
+		}
+		for n := 2; n > 0; n-- { // togglers
+			start(func(s *vk.Session, rr *rand.Rand) {
+				for !stop.Load() {
+					if !put(s, &mocrelay.ClientReqMsg{SubscriptionID: "x", ReqFilters: []*mocrelay.ReqFilter{{}}}) || !put(s, &mocrelay.ClientCloseMsg{SubscriptionID: "x"}) {
+						return
+					}
+					if rr.IntN(4) == 0 {
+						runtime.Gosched()
+					}
+				}
+			}, k)
+			k++
+		}
+		time.Sleep(time.Duration(5+r.IntN(25)) * time.Millisecond)
+		stop.Store(true)
+		for _, s := range sessions {
+			s.Cancel()
+		}
+		rep.Eval(1)
+		stuck := 0
+		for _, s := range sessions {
+			if !s.WaitDone() {
+				stuck++
+			}
+		}
+		if stuck > 0 {
+			if p := vk.ParkedInRepo(); p != nil {
+				rep.Violation("termination/serve-did-not-return/concurrent-sessions", fmt.Sprintf("%d of %d sessions on one %s did not return after all were cancelled (holders, publishers and sessions opening and closing their only subscription were running at once)", stuck, len(sessions), desc), map[string]any{"composition": desc, "sessions": len(sessions), "parked_goroutine": p.Stack})
+			} else {
+				rep.Inconclusive("C13: sessions of the crowd scenario did not return within the bound but no goroutine is parked in mocrelay code")
+			}
+			break // the parked goroutines stay: nothing after this can be attributed
+		}
+		wg.Wait()
+		if conns, subs, ok := vk.PeekRouter(rt); ok && (conns != 0 || subs != 0) {
+			rep.Violation("leak/router-registry/concurrent-sessions", fmt.Sprintf("after %d concurrent sessions on one %s had all ended the router registry still holds %d connection(s) and %d subscription(s)", len(sessions), desc, conns, subs), map[string]any{"composition": desc})
+			break
+		}
+		rep.Count("crowd_scenarios", 1)
+		rep.Nontrivial(fmt.Sprintf("crowd/%s/%d", desc, len(sessions)))
+	}
+	rep.Require(rep.Violations() > 0 || rep.Counter("crowd_scenarios") >= int64(nCrowd*9/10), "crowd scenarios")
 
 	// WebSocket clause
 	type wsCase struct {
